@@ -226,6 +226,10 @@ func (this *Hnsw) Search(ctx context.Context, query math.Vector, k uint) (Search
 	if entrypoint == nil {
 		return make(SearchResult, 0), nil
 	}
+	// No more than Len() items can be returned; a larger k only sizes the beam and its buffers
+	if l := this.Len(); l > 0 && k > uint(l) {
+		k = uint(l)
+	}
 
 	minDistance := this.space.Distance(query, entrypoint.vector)
 	for l := entrypoint.level; l > 0; l-- {
